@@ -56,6 +56,12 @@ pub fn vpanic_forbidden<T>() -> (r: T)
     ensures false
 { unimplemented!() }
 pub fn vdrop<T>(t: T) { }      // `drop(e)` (rule D5)
+// `.map(|_| ())` (rule F2 names it `map_unit`) on a Result / an Option: the success value is forgotten, everything else is kept
+pub trait HxMapUnit: Sized { type O; spec fn hx_mu(self, o: Self::O) -> bool; fn map_unit(self) -> (r: Self::O) ensures self.hx_mu(r); }
+impl<T, E> HxMapUnit for Result<T, E> { type O = Result<(), E>; open spec fn hx_mu(self, o: Result<(), E>) -> bool { (self is Ok <==> o is Ok) && (self is Err ==> o->Err_0 == self->Err_0) }
+    fn map_unit(self) -> (r: Result<(), E>) { match self { Ok(_) => Ok(()), Err(e) => Err(e) } } }
+impl<T> HxMapUnit for Option<T> { type O = Option<()>; open spec fn hx_mu(self, o: Option<()>) -> bool { self is Some <==> o is Some }
+    fn map_unit(self) -> (r: Option<()>) { match self { Some(_) => Some(()), None => None } } }
 // rule G6: the value comes out of a lock guard that stays alive (as a temporary of an `if let`/`match` scrutinee, or as a local) across
 // a later await: whoever else needs that lock waits for as long as this future is kept un-polled. The shape itself is the defect.
 pub fn hx_guard_held_across_await<T>(t: T) -> (r: T)
